@@ -1114,6 +1114,9 @@ def run(ctx):
     ctx.guarded('C01-D4', 'obs.py:CObs@formulas', cobs_formulas, ctx, obs)
     ctx.guarded('C01-D5', 'obs.py:_expand_deltas_for_merge', expand_for_merge, ctx, obs)
     ctx.guarded('C01-D5', 'obs.py:derived_observable@alignment', derived_alignment, ctx, obs)
+    from .. import aliasloop
+    n_acc = ctx.guarded('C01-D5', 'obs.py@loop-accumulators', aliasloop.stale_accumulator, ctx, 'C01-D5', obs, [q for q, _ in obs.functions() if q.count('.') <= 1]) or 0
+    ctx.floor('C01-D5 per-iteration accumulators (dicts summed up and consumed in one loop)', n_acc, 1)
     ctx.guarded('C01-D6', 'obs.py:_compute_scalefactor_missing_rep', scalefactor, ctx, obs)
     from . import C04
     ctx.guarded('C01-D5', 'obs.py:_merge_idx', C04.merge_idx_rules, ctx, obs, 'C01-D5', (('_merge_idx', 'union'),))
